@@ -66,6 +66,16 @@ pub fn exec(op: &str, args: &[&str], out: &mut Out) -> Option<()> {
             // owned / borrowed / cow
             chk(buf.as_str() == s, "to_buf");
             chk(p.to_owned().as_str() == s, "to_owned");
+            // the owned / cloned forms of every token of the pointer keep its encoded and decoded text
+            for t in p.tokens() {
+                let e = t.encoded().to_string();
+                let d = t.decoded().to_string();
+                let o = t.to_owned();
+                chk(o.encoded() == e && o.decoded() == d, "Token::to_owned");
+                let i = t.clone().into_owned();
+                chk(i.encoded() == e && i.decoded() == d, "Token::into_owned");
+                chk(jsonptr::Token::from(&t).encoded() == e, "From<&Token> for Token");
+            }
             let c1: Cow<Pointer> = Cow::from(p);
             let c2: Cow<'static, Pointer> = Cow::from(buf.clone());
             chk(c1.as_str() == s && c2.as_str() == s && c1.into_owned().as_str() == s && c2.into_owned().as_str() == s, "Cow");
